@@ -10,7 +10,8 @@ Open Scope N_scope.
 Record fcase := {
   fc_family : N;            (* 1 do-not-send-cids + dedup key of an earlier request; 2 shared dedup key whose first
                                request finished early, default-scope request running ahead; 3 another request cancelled
-                               with block-carrying items queued *)
+                               with block-carrying items queued; 4 an earlier request over the same DAG cancelled while
+                               paused on the responder, its partial data discarded *)
   fc_plan : ltree; fc_L : list cid; fc_R : list cid;
   fc_obs : outcome;         (* what the victim delivered *)
   fc_store : list N;        (* the requestor's store at the end (all requests) *)
